@@ -469,6 +469,9 @@ def cases(tier, seed, spec):
         k += 1
     for n, m, rows in sized_tables(tier, seed):
         yield {'alphabet': 'numbered', 'n': n, 'm': m, 'rows': rows}
+    # pairs of different tables over the same labels whose table texts have the same length and CRC-32
+    for c in gen.crc_twins(seed, 12 if tier == 'quick' else 60, tag='C12TWIN'):
+        yield {'twin': True, 'objects': c['objects'], 'properties': c['properties'], 'rows': c['rows'], 'twin_rows': c['twin_rows']}
 
 
 ENCODINGS = ['utf-8', 'utf-16', 'latin-1']
@@ -544,9 +547,52 @@ def _failed_io_first(concepts, ctx, rng, work, objects, properties):
     COL.count('contexts_with_failed_io_before_the_round_trips')
 
 
+def run_twins(concepts, case, spec):
+    """Two different texts of the same format, equal in length and CRC-32, parsed one after the other
+    (and the first one again): each must give its own context.  Every load is judged by the monitors
+    against the independent readers; the driver compares the round trips."""
+    import zlib
+    C = concepts.Context
+    o, p = list(case['objects']), list(case['properties'])
+    m = len(p)
+    tables = [[tuple(bool(r >> j & 1) for j in range(m)) for r in rs] for rs in (case['rows'], case['twin_rows'])]
+    ctxs = [call(C, o, p, b) for b in tables]
+    if any(c is RAISED for c in ctxs):
+        return
+    texts = [call(c.tostring, 'table') for c in ctxs]
+    if any(t is RAISED for t in texts):
+        return
+    if len(texts[0]) == len(texts[1]) and zlib.crc32(texts[0].encode('utf-8')) == zlib.crc32(texts[1].encode('utf-8')) \
+            and texts[0] != texts[1]:
+        COL.count('twin_texts_confirmed_equal_length_and_crc32')
+    work = spec['workdir']
+    for k in (0, 1, 0, 1):
+        COL.count('judged_roundtrip')
+        for what, back in (('string', call(C.fromstring, texts[k], 'table')), ('make_context', call(concepts.make_context, texts[k]))):
+            if back is RAISED or _triple_of_ctx(back) != _norm((o, p, [list(r) for r in tables[k]])):
+                COL.violation('driver', f'roundtrip:table-{what}-of-a-twin-text-gives-another-context',
+                              _norm((o, p, [list(r) for r in tables[k]])), None if back is RAISED else _triple_of_ctx(back))
+        path = os.path.join(work, f'twin{k}.txt')
+        if call(ctxs[k].tofile, path, 'table') is not RAISED:
+            back = call(C.fromfile, path, 'table')
+            if back is RAISED or _triple_of_ctx(back) != _norm((o, p, [list(r) for r in tables[k]])):
+                COL.violation('driver', 'roundtrip:table-file-of-a-twin-text-gives-another-context',
+                              _norm((o, p, [list(r) for r in tables[k]])), None if back is RAISED else _triple_of_ctx(back))
+        for fmt in ('cxt', 'csv', 'python-literal'):
+            t = call(ctxs[k].tostring, fmt)
+            if t is not RAISED and _representable(fmt, o, p):
+                back = call(C.fromstring, t, fmt)
+                if back is RAISED or _triple_of_ctx(back) != _norm((o, p, [list(r) for r in tables[k]])):
+                    COL.violation('driver', f'roundtrip:{fmt}-string-of-a-twin-gives-another-context',
+                                  _norm((o, p, [list(r) for r in tables[k]])), None if back is RAISED else _triple_of_ctx(back))
+    COL.nontrivial('twin', tuple(o), tuple(p), tuple(case['rows']))
+
+
 def run_case(concepts, case, spec):
     if 'real' in case:
         return run_real(concepts, case, spec)
+    if case.get('twin'):
+        return run_twins(concepts, case, spec)
     C, D = concepts.Context, concepts.Definition
     rng = random.Random(f"{spec['seed']}/c12/{core.dumps(case)}")
     o, p = NUMBERED if case['alphabet'] == 'numbered' else ALPHABETS[case['alphabet']]
